@@ -74,7 +74,7 @@ func (w *ShardWorld) Reopen() error {
 func (w *ShardWorld) EvictCaches() {
 	w.CM.Release(w.Path) // what Shard.Close uses
 	// shared caches are registered under "<dbFile>/index/<type>/<property>"
-	for name, sv := range w.Col.IndexSchema {
+	for name, sv := range detRange(w.Col.IndexSchema) {
 		w.CM.Release(w.Path + "/index/" + sv.Type + "/" + name)
 	}
 }
@@ -237,7 +237,7 @@ func (w *ShardWorld) AuditDocs(m *RefShard, probe []int, where string) (ok bool)
 			return false
 		}
 	}
-	for id := range got {
+	for id := range detRange(got) {
 		if _, asked := m.Docs[id]; !asked {
 			found := false
 			for _, i := range probe {
@@ -294,13 +294,13 @@ func DumpFile(path string) (Dump, error) {
 func (d Dump) Digest() string {
 	h := sha256.New()
 	names := make([]string, 0, len(d))
-	for n := range d {
+	for n := range detRange(d) {
 		names = append(names, n)
 	}
 	sort.Strings(names)
 	for _, n := range names {
 		keys := make([]string, 0, len(d[n]))
-		for k := range d[n] {
+		for k := range detRange(d[n]) {
 			keys = append(keys, k)
 		}
 		if len(keys) == 0 {
@@ -318,8 +318,8 @@ func (d Dump) Digest() string {
 
 func (d Dump) Diff(o Dump) string {
 	var b bytes.Buffer
-	for n, m := range d {
-		for k, v := range m {
+	for n, m := range detRange(d) {
+		for k, v := range detRange(m) {
 			if ov, ok := o[n][k]; !ok {
 				fmt.Fprintf(&b, "only-left %s/%x; ", n, k)
 			} else if !bytes.Equal(v, ov) {
@@ -330,8 +330,8 @@ func (d Dump) Diff(o Dump) string {
 			}
 		}
 	}
-	for n, m := range o {
-		for k := range m {
+	for n, m := range detRange(o) {
+		for k := range detRange(m) {
 			if _, ok := d[n][k]; !ok {
 				fmt.Fprintf(&b, "only-right %s/%x; ", n, k)
 			}
